@@ -346,6 +346,7 @@ def check(prog, rep, tier):
     rep.rule("C01.union-or", "union is cell-wise OR over the full range", floor=2)
     rep.rule("C01.union-compatible", "union combines only filters with equal hash count, bit count and probe hash (else positions do not correspond and keys are lost)", floor=2)
     rep.rule("C01.loader-payload", "every loader path assigns the bit array from its input", floor=6)
+    rep.rule("C01.loader-hash", "a structure built or loaded with a caller-supplied hashing strategy hashes with exactly that strategy (else every added key probes other positions after a reload)", floor=4)
     rep.assume("a user-supplied hash function is deterministic (C18 decides it for the shipped strategies)")
     E = Effects(prog)
     for ctx in ("BloomFilter", "BloomFilterOnDisk"):
@@ -355,12 +356,15 @@ def check(prog, rep, tier):
         similarity_components(prog, rep, "C01.union-compatible", ctx)
     expanding_rules(prog, rep, E)
     loader_payload(prog, rep)
+    from .C05 import resupplied_rule
+    resupplied_rule(prog, rep, "C01.loader-hash", ("BloomFilter", "BloomFilterOnDisk", "ExpandingBloomFilter", "RotatingBloomFilter"))
 
 
 from ..selftest import Mutant, add_method, del_stmt, insert_stmt, replace_expr, replace_stmt, swap_binop
 
 _B, _E = "blooms/bloom.py", "blooms/expandingbloom.py"
 MUTANTS = [
+    Mutant("frombytes drops the caller's hashing strategy", _B, replace_expr("BloomFilter", "frombytes", "blm._load(b, hash_function=blm.hash_function)", "blm._load(b)"), rule="C01.loader-hash"),
     Mutant("add_alt | -> ^", _B, swap_binop("BloomFilter", "add_alt", _ast.BitOr, _ast.BitXor), rule="C01.monotone"),
     Mutant("add_alt range(1, k)", _B, replace_expr("BloomFilter", "add_alt", "range(0, self._number_hashes)", "range(1, self._number_hashes)"), rule="C01.add-check"),
     Mutant("check_alt probes one hash more", _B, replace_expr("BloomFilter", "check_alt", "range(self._number_hashes)", "range(self._number_hashes + 1)"), rule="C01.add-check"),
